@@ -337,7 +337,7 @@ func gen(t *rapid.T) Case {
 		sites := reachableRefs(lay)
 		if len(sites) > 0 {
 			s := sites[rapid.IntRange(0, len(sites)-1).Draw(t, "site")]
-			kind := rapid.SampledFrom([]string{"missing-name", "missing-file", "missing-pointer", "wrong-kind", "missing-name-shadowed"}).Draw(t, "breakkind")
+			kind := rapid.SampledFrom([]string{"missing-name", "missing-file", "missing-pointer", "wrong-kind", "missing-name-shadowed", "renamed-path-variable"}).Draw(t, "breakkind")
 			nr := breakRef(s.Ref, kind)
 			if kind == "wrong-kind" {
 				nr, kind = wrongKindRef(t, lay, s)
@@ -464,6 +464,12 @@ func breakRef(ref, kind string) string {
 			return ""
 		}
 		return ref + "/no/such/member"
+	case "renamed-path-variable":
+		// "/t0/{key}" is not a key of the target's paths, although "/t0/{id}" is
+		if i < 0 || !strings.Contains(ref[i:], "#/paths/") || !strings.Contains(ref, "{id}") {
+			return ""
+		}
+		return strings.Replace(ref, "{id}", "{key}", 1)
 	case "wrong-kind":
 		if i < 0 || !strings.Contains(ref[i:], "/components/") {
 			return ""
